@@ -45,6 +45,18 @@ CHECKS = {
     design_ref="DESIGN.md section 4 C03",
     note="Numeric clauses decided by harness/alpha.py with the documented QP formulas; P is read from its lower triangle only by the oracle.",
     technique="TLA+ contract + faithful model (TLC); TLC trace validation with exact-rational certificate abstraction"),
+ "C04": dict(
+    category="model_checking",
+    text="Contract invariants OptimalCert (with x_in_domain) / OptimalDecision / IterBudget on traces of cpl, cp and gp; CPL.tla models the "
+         "iteration, the domain backtracking and the non-monotone line search (relaxed_iters, saved state, restore-and-retry) and is "
+         "model-checked against the contract. Function families (convex quadratics as objective or constraints, weighted log barrier with "
+         "restricted domain refusing trial points as None or (None, None), log-sum-exp) are evaluated independently of the callbacks; cp on a "
+         "quadratic objective is compared with coneqp, gp with cp driven by an independent LSE callback, and the lengths of znl/snl with the "
+         "original (not the epigraph) problem.",
+    design_ref="DESIGN.md section 4 C04",
+    note="Numeric clauses decided by harness/alpha.py cpl_cert with the documented starting-point normalisers; log/exp function values use "
+         "math.log/math.exp. For cp/gp the accuracy fields of the internal epigraph problem are only weakly comparable (t is not returned).",
+    technique="TLA+ contract + faithful line-search model (TLC); TLC trace validation of recorded cpl/cp/gp calls with exact-rational certificate abstraction"),
  "C05": dict(
     category="model_checking",
     text="Planted.tla makes TLC the judge of truth: every instance used is verified in exact integer arithmetic to be strictly primal/dual "
